@@ -721,7 +721,14 @@ def _generate_color_font(config: FontConfig, inputs: Iterable[InputGlyph]):
     color_glyphs = []
     glyph_order = list(ufo.glyphOrder)
     assert glyph_order[0] == ".notdef"
+    input_glyph_names = set()
     for glyph_input in inputs:
+        # two sources landing on one glyph would silently overwrite each other
+        if glyph_input.glyph_name in input_glyph_names:
+            raise ValueError(
+                f"More than one input maps to glyph name {glyph_input.glyph_name}"
+            )
+        input_glyph_names.add(glyph_input.glyph_name)
         if glyph_input.glyph_name in glyph_order:
             gid = glyph_order.index(glyph_input.glyph_name)
         else:
